@@ -502,6 +502,16 @@ func (env *SpecEnv) call(x *SCall) Val {
 					return Val{T: sAnd(sNot(sEq(a, "nilarr")), sNot(sSel(ex.arrAllocArr(env.old), a)), sSel(ex.arrAllocArr(env.st), a)), S: sBool}
 				}
 				return Val{T: sAnd(sNot(sEq(v.T, "nil")), sNot(sSel(ex.allocArr(env.old), v.T)), sSel(ex.allocArr(env.st), v.T)), S: sBool}
+			case "hint":
+				// instantiation hint: contributes the index-witness fact (ix e) when the enclosing
+				// formula is assumed, and is simply true when it has to be proved
+				v := env.nopol().eval(x.Args[0])
+				if env.pol > 0 || v.S.Kind != KInt {
+					return Val{T: "true", S: sBool}
+				}
+				hn := sym("hint")
+				ex.w.declFun(hn, []*Sort{sInt}, sBool)
+				return Val{T: "(" + hn + " " + v.T + ")", S: sBool}
 			case "row":
 				v := env.eval(x.Args[0])
 				if v.S.Kind != KSlice {
@@ -842,6 +852,7 @@ func (env *SpecEnv) tryResolveType(s string) (types.Type, *Sort) {
 	if env.typeScopePkg != nil {
 		pkg, pos = env.typeScopePkg, env.typeScopePos
 	} else if env.fi != nil {
+		pkg = env.fi.Pkg
 		pos = env.fi.Decl.Body.Lbrace + 1
 	}
 	if pkg == nil {
